@@ -622,7 +622,7 @@ func runC08(c *Ctx) int {
 	workers := runtime.NumCPU()
 
 	// (a) detection
-	nStreams := c.Pick(1200, 60000)
+	nStreams := c.Pick(3000, 60000)
 	codecParallel(nStreams, workers, func(s int) {
 		cc := codecCounts{}
 		rng := c.Rand(fmt.Sprintf("detect/%d", s))
@@ -651,7 +651,7 @@ func runC08(c *Ctx) int {
 	})
 
 	// (b) negative class
-	nNeg := c.Pick(4500, 180000)
+	nNeg := c.Pick(12000, 180000)
 	codecParallel(nNeg, workers, func(i int) {
 		cc := codecCounts{}
 		rng := c.Rand(fmt.Sprintf("negative/%d", i))
